@@ -38,7 +38,7 @@ type fakeInst struct {
 	handlers []directive.ReferenceHandler
 }
 
-func (f *fakeInst) GetContext() context.Context      { return f.ctx }
+func (f *fakeInst) GetContext() context.Context       { return f.ctx }
 func (f *fakeInst) GetDirective() directive.Directive { return f.dir }
 func (f *fakeInst) GetDirectiveIdent() string         { return f.dir.GetName() }
 func (f *fakeInst) GetResolverErrors() []error        { return nil }
@@ -94,9 +94,9 @@ func (h *fakeRH) MarkIdle(idle bool) {
 		h.once.Do(func() { close(h.idle) })
 	}
 }
-func (h *fakeRH) AddValueRemovedCallback(id uint32, cb func()) func()       { return func() {} }
-func (h *fakeRH) AddResolverRemovedCallback(cb func()) func()               { return func() {} }
-func (h *fakeRH) AddResolver(res directive.Resolver, cb func()) func()      { return func() {} }
+func (h *fakeRH) AddValueRemovedCallback(id uint32, cb func()) func()  { return func() {} }
+func (h *fakeRH) AddResolverRemovedCallback(cb func()) func()          { return func() {} }
+func (h *fakeRH) AddResolver(res directive.Resolver, cb func()) func() { return func() {} }
 func (h *fakeRH) values() []directive.Value {
 	h.mtx.Lock()
 	defer h.mtx.Unlock()
